@@ -668,9 +668,42 @@ def check_C07(tier):
             if quick and (i + ci) % 3:
                 continue
             add(n, "depth", "pruning", depth=4 if quick else 5, cfg=c)
-    # converse: roots without legal moves
+    # positions in which most pseudo-legal moves are illegal (pinned pieces with many moves) and only a few legal ones are left:
+    # where a heuristic counts or skips moves BEFORE their legality is known, such a node looks like one without legal moves.
+    # The specification's tree says where they are (|PseudoLegal| - |Legal| >= 7, not in check); they are searched as roots
+    # and - so that they are interior, non-PV nodes with little depth left - from their parents and grandparents
     tree = shared(tier)["tree"]
     ck.add_tlc(tree)
+    pinheavy, byk = [], {}
+    for line in vlib.tlc_lines(tree):
+        o = vlib.obs_json(line)
+        byk[(o["root"], tuple(o["path"]))] = (len(o["pseudo"]) - len(o["legal"]), len(o["legal"]), o["inCheck"])
+    hits = sorted(((v[0], -v[1], k) for k, v in byk.items() if v[0] >= 7 and v[1] > 0 and not v[2]), reverse=True)
+    want_keys = []
+    for _, _, k in hits[:(40 if quick else 400)]:
+        for j in range(len(k[1]) + 1):
+            if (k[0], k[1][:j]) not in want_keys:
+                want_keys.append((k[0], k[1][:j]))
+    wk = set(want_keys)
+    pnodes = {(n["rootidx"], tuple(n["path"])): n for n in sl.load_nodes(tree, want=lambda o: (o["root"], tuple(o["path"])) in wk)}
+    pcombos = [{}, {n: False for n in sl.PRUNING}] + [{n: (n == only) for n in sl.PRUNING} for only in ("UseLmp", "UseFP", "UseLmr")]
+    for k in want_keys:
+        n = pnodes.get(k)
+        if n is None or not n["legal"] or n["pos"]["hmc"] > 90:
+            continue
+        for d in ((2, 3, 4) if quick else (2, 3, 4, 5, 6)):
+            for c in pcombos:
+                add(n, "depth", "pruning", depth=d, cfg=c)
+    ck.cov["pin_heavy_nodes_in_tree"] = len(hits)
+    # hand-made parents of such nodes (corpus/pins.fen): the side to move has a few quiet moves, after each of which the
+    # opponent's rook / bishop / queen / knight is pinned with up to 14 illegal moves and only quiet king moves are legal
+    for f in [l.strip() for l in open(os.path.join(VERIF, "corpus", "pins.fen")) if l.strip()]:
+        pos = fenspec.fen_to_state(f)
+        n = {"pos": pos, "root": pos, "path": [], "kinds": []}
+        for d in (2, 3, 4, 5):
+            for c in pcombos:
+                add(n, "depth", "pruning", depth=d, cfg=c)
+    # converse: roots without legal moves
     term = sl.load_nodes(tree, want=lambda o: len(o["legal"]) == 0)
     rng.shuffle(term)
     allnodes = {(n["rootidx"], tuple(n["path"])): n for n in sl.load_nodes(tree, want=lambda o: len(o["path"]) <= (1 if quick else 2))}
@@ -1176,7 +1209,7 @@ def life_scripts(tier, rng):
                 calls.append(ng)
                 running = None
             elif r < 0.94:
-                calls.append(rng.choice([{"op": "isready"}, {"op": "clearhash"}]))
+                calls.append(rng.choice([{"op": "isready"}, {"op": "clearhash"}, {"op": "resize"}]))
             else:
                 calls.append(sl_(rng.choice([1, 4, 6, 12, 30])))
         scripts.append({"id": len(scripts) + 1, "name": "random", "calls": calls, "jitter": rng.choice([0, 0, 200, 1000, 3000]),
@@ -1472,6 +1505,28 @@ def check_C14(tier):
     ck.add_tlc(a)
     # 2. real runs: named scenarios (the counterexamples TLC finds for the unrepaired code) and random scripts
     scripts = life_scripts(tier, rng)
+    # ... and the controller's side of behaviours of the model (which calls, in which order, with clock ticks as pauses), run
+    # under the free scheduler: the gated replay orders every step through the replayer and so can hide a data race, these runs
+    # (and their repetition under the race detector) cannot
+    gb, _, _, _, _ = gate_behaviours(tier)
+    for b in gb[:(60 if quick else 600)]:
+        calls, modes = [], {}
+        for st_ in b["steps"]:
+            l, x = st_["l"], st_["x"]
+            if l == "call.start":
+                modes[st_["i"]] = x[0]
+                calls.append({"op": "start", "mode": x[0], "fen": rng.choice([START_FEN, KIWI_FEN]), "depth": 1 if (x[1] or x[0] == "depth") else 0,
+                              "ms": 60 if x[0] == "time" else 300})
+            elif l == "c.stop.set":
+                calls.append({"op": "newgame" if x == "newgame" else "stop"})
+            elif l == "call.ponderhit":
+                calls.append({"op": "ponderhit"})
+            elif l == "call.query":
+                calls.append({"op": x})
+            elif l == "tick":
+                calls.append({"op": "sleep", "ms": 20})
+        if calls:
+            scripts.append({"id": len(scripts) + 1, "name": "from-model", "calls": calls, "jitter": rng.choice([0, 200, 1000]), "procs": rng.choice([0, 0, 1])})
     byid = {s_["id"]: s_ for s_ in scripts}
     results, _ = run_life(scripts, watchdog=8000)
     # a call that did not return is re-run alone with a long watchdog before it counts (a loaded machine
@@ -1523,6 +1578,9 @@ def check_C14(tier):
     if len(results) + max(0, len(again) - 12) != len(scripts):
         raise Inconclusive("only %d of %d scripts produced a record" % (len(results), len(scripts)))
     # 3. trace validation: every recorded run must be a behaviour of the model in which the lifecycle properties hold
+    # (the runs derived from model behaviours are not validated back against the model: with their many timers TLC's search
+    # for an explaining interleaving is too expensive for nothing - they are there for the monitors and the race detector)
+    ok_runs = [r_ for r_ in ok_runs if byid[r_["id"]]["name"] != "from-model"]
     verdicts, states, trans = validate_life(ok_runs, "life-trace")
     ck.cov["states"] += states
     ck.cov["transitions"] += trans
